@@ -27,6 +27,9 @@ type env struct {
 	sig chan struct{}
 	// reorg events the detector has recorded in this behaviour (its DB file outlives restarts): "second/from/to"
 	rdEvents map[string]bool
+	// handover: the relay has been released to hand a reorg notification to the driver and has not done so yet (the detector's
+	// send may still be on its way): no new block is delivered to the driver meanwhile, it must be idle when the send arrives
+	handover int32
 }
 
 func newEnv(c *chain) *env { return &env{c: c, sig: make(chan struct{}, 1)} }
@@ -129,12 +132,20 @@ func (e *env) remove(w *waiter) {
 func (e *env) find(who string) *waiter {
 	e.mu.Lock()
 	defer e.mu.Unlock()
+	var first *waiter
 	for _, w := range e.ws {
 		if w.who == who && w.ctx.Err() == nil {
-			return w
+			// the detector can be parked at several gates at once (it walks the lists of its subscribers concurrently): the
+			// hand-over of an acknowledgement always comes first - the subscriber's tracked list is locked until it is done
+			if w.key == "acked" {
+				return w
+			}
+			if first == nil {
+				first = w
+			}
 		}
 	}
-	return nil
+	return first
 }
 
 // await waits until pred holds (re-evaluated on every gate signal and every 200 microseconds)
